@@ -49,7 +49,7 @@ def np_hooks() -> Dict:
 
     def np_arange(ev, call):
         return list(range(ev.ev(call.args[0])))
-    return {"np.sum": np_sum, "np.max": np_max, "np.zeros": np_zeros, "np.arange": np_arange}
+    return {}       # the shared numpy stand-ins (engines/stdlib.py) are used: they accept every call form
 
 
 def random_hooks(log: Dict, elem_script, move_script, in_step=None) -> Dict:
@@ -365,8 +365,12 @@ def _check_conversion(res: Result, proj: Project, sim: StepSim):
         evl = Evaluator({}, funcs)
         try:
             ret = evl.call_user(gen.node, [3, len(targets), 7, complete])
+        except IndexOut as exc:
+            ret = f"raised IndexError ({exc})"
         except Unsupported as exc:
             raise AnalysisError(f"{gen.qualname}: unsupported construct line {getattr(exc.node, 'lineno', '?')}: {exc}")
+        except AbsRaise as r:
+            ret = f"raised {r.exc_name} (line {getattr(r.node, 'lineno', '?')})"
         want = []
         for t in targets:
             if max(t) < 0:
